@@ -1191,6 +1191,8 @@ package p9p
 //@ loop 1 invariant rt_names_val: iscase("MessageTwalk") ==> (forall k int :: {old(strAt(f.Message.(MessageTwalk).Wnames, k))} 0 <= k && (k < $done - 1 || k == $done - 1) ==> strAt(gstr(d), k) == old(strAt(f.Message.(MessageTwalk).Wnames, k)))
 //@ loop 1 invariant rt_qids_fresh: iscase("MessageRwalk") ==> gkind(d) == 2 && len(f.Message.(MessageRwalk).Qids) == len(vs) && fresh(base(gqid(d))) && onlyWindow("E:p9p.Qid", gqid(d))
 //@ loop 1 invariant rt_qids_rem: iscase("MessageRwalk") ==> rem(d.rd) == old(qidsFrom(f.Message.(MessageRwalk).Qids, $done))
+//@ loop 1 invariant rt_qids_last: iscase("MessageRwalk") && $done >= 1 ==> qidAt(gqid(d), $done - 1) == old(qidAt(f.Message.(MessageRwalk).Qids, $done - 1))
+//@ loop 1 invariant rt_qids_val: iscase("MessageRwalk") ==> (forall k int :: {old(qidAt(f.Message.(MessageRwalk).Qids, k))} 0 <= k && (k < $done - 1 || k == $done - 1) ==> qidAt(gqid(d), k) == old(qidAt(f.Message.(MessageRwalk).Qids, k)))
 //@ loop 1 invariant rt_qids_unfold: iscase("MessageRwalk") && $done < len(vs) ==> old(qidsFrom(f.Message.(MessageRwalk).Qids, $done) == bcat(encQid(f.Message.(MessageRwalk).Qids[$done]), qidsFrom(f.Message.(MessageRwalk).Qids, $done + 1)))
 // (the element-value clause for Rwalk - decoded qid k equals f's qid k - is not under contract: its preservation through the
 //  three field stores of one element is true case by case but was not discharged by any solver as one obligation)
@@ -1572,7 +1574,7 @@ package p9p
 //@ func (codec9p).Unmarshal#walks
 //@ property C01
 //@ timeout 60
-//@ use wirekind wiredefr wirefrom wiresplit wiremono bytes noassoc assoc_r wirelist
+//@ use wirekind wiredefr wirefrom wiresplit wiremono bytes noassoc assoc_r wirelist pinheaps
 //@ prune
 //@ elemptrs
 //@ foreach MessageTwalk MessageRwalk
@@ -1587,7 +1589,7 @@ package p9p
 //@ ensures accepted: err == nil
 //@ ensures roundtrip_header: V.Type == f.Type && V.Tag == f.Tag
 //@ ensures roundtrip_Twalk: typeis(f.Message, MessageTwalk) ==> typeis(V.Message, MessageTwalk) && TW.Fid == FT.Fid && TW.Newfid == FT.Newfid && len(TW.Wnames) == len(FT.Wnames) && (forall k int :: {strAt(TW.Wnames, k)} 0 <= k && k < len(FT.Wnames) ==> strAt(TW.Wnames, k) == old(strAt(FT.Wnames, k)))
-//@ ensures roundtrip_Rwalk: typeis(f.Message, MessageRwalk) ==> typeis(V.Message, MessageRwalk) && len(V.Message.(MessageRwalk).Qids) == len(f.Message.(MessageRwalk).Qids)
+//@ ensures roundtrip_Rwalk: typeis(f.Message, MessageRwalk) ==> typeis(V.Message, MessageRwalk) && len(V.Message.(MessageRwalk).Qids) == len(f.Message.(MessageRwalk).Qids) && (forall k int :: {qidAt(V.Message.(MessageRwalk).Qids, k)} 0 <= k && k < len(f.Message.(MessageRwalk).Qids) ==> qidAt(V.Message.(MessageRwalk).Qids, k) == old(qidAt(f.Message.(MessageRwalk).Qids, k)))
 
 // Induction on the prefix length: every name takes at least its two-byte length.
 //@ func lemmaNamesMin
